@@ -17,7 +17,7 @@ RULE = ("cases from rng(seed, 2, 0, i): a random graph of 1..40 edges over r2/r3
         "chi2>0 after perturbing one measurement; every 5th checks linearity in Omega on twin edges; every 8th case is an operand history on one live edge (estimate / pose / offset / information replaced or modified in place between calls). distinct = fingerprint of the spec; "
         "non-trivial = chi2 above 1e3 x rounding bound, or a consistent graph with >=3 edges.")
 REQ = ["eval:error-vs-reference", "eval:information-stored-as-given", "eval:chi2-vs-eT-Omega-e", "eval:graph-chi2-is-sum", "eval:optimize-initial-chi2-is-graph-chi2", "eval:consistent-graph-chi2-zero", "eval:perturbed-measurement-chi2-positive",
-       "eval:chi2-linear-in-Omega", "eval:chi2-nonnegative-psd", "kind:odo-se3", "kind:lm-se3", "kind:lm-se2", "kind:lm-r2", "class:info:cross", "class:info:tiny_scale", "class:info:huge_scale", "class:q:wneg", "class:landmark_offset_rotated", "history_steps", "class:info:integer_dtype", "class:edges_prebound_to_stale_vertices", "class:graph_with_4000+_edges"]
+       "eval:chi2-linear-in-Omega", "eval:chi2-nonnegative-psd", "kind:odo-se3", "kind:lm-se3", "kind:lm-se2", "kind:lm-r2", "class:info:cross", "class:info:tiny_scale", "class:info:huge_scale", "class:q:wneg", "class:landmark_offset_rotated", "history_steps", "class:info:integer_dtype", "class:edges_prebound_to_stale_vertices", "class:graph_with_4000+_edges", "class:chi2_after_optimize_then_external_move", "class:info:sparse:zero_rows_and_blocks"]
 PLAN = {
     "quick": {"cases": 6000, "soft_s": 60, "min_nontrivial": 1000, "require": REQ},
     "thorough": {"cases": 120000, "soft_s": 1100, "min_nontrivial": 10000, "require": REQ},
@@ -207,6 +207,24 @@ def run_case(ctx, i, rng):
             res = M.quiet_optimize(go, max_iter=1, tol=0.0, fix_first_pose=bool(rng.random() < 0.5))
             ctx.close("optimize-initial-chi2-is-graph-chi2", float(res.initial_chi2), tot_ref, tot_bound + 8 * ne * R.EPS * abs(tot_ref), {"edges": ne, "n_fixed": nfix}, None,
                       {"graph": spec_o})
+            # history: after that optimize() call the poses change by another route (assigned / written in place); the graph's chi2 is the sum over
+            # its edges at the *current* estimates (each edge's own chi2 is judged against the reference elsewhere in this check)
+            free_v = [v for v in go._vertices if all(math.isfinite(x) for x in M.fl(v.pose))]
+            if free_v:
+                v = free_v[int(rng.integers(len(free_v)))]
+                kk = M.kind(v.pose)
+                moved_to = M.fl(M.mkpose(kk, gen.perturb(rng, kk, M.fl(v.pose), 0.5, 0.2)))
+                if rng.random() < 0.5:
+                    v.pose = M.mkpose(kk, moved_to)
+                else:
+                    v.pose[:] = moved_to
+                with np.errstate(all="ignore"):
+                    parts = [float(e.calc_chi2()) for e in go._edges]
+                    cg = float(go.calc_chi2())
+                if all(math.isfinite(x) for x in parts):
+                    tot = math.fsum(parts)
+                    ctx.close("graph-chi2-is-sum", cg, tot, 64 * ne * R.EPS * math.fsum(abs(x) for x in parts) + 1e-300, {"edges": ne, "history": "optimize(), then a pose moved from outside"}, None, {"graph": spec_o})
+                    ctx.count("class:chi2_after_optimize_then_external_move")
         except Exception as ex:
             ctx.count("optimize_raised_in_chi2_report_subcheck:" + type(ex).__name__)
     if consistent:
